@@ -497,6 +497,13 @@ pub fn lane_skip(seed: u64) -> Vec<Scenario> {
         CustomInlineWithOtherKeys,
         /// front-matter says 33, the test case exits with the built-in 80: no skip
         EightyButCustomDefaults,
+        /// front-matter says 33; the exiting test case has an inline configuration WITHOUT a skip
+        /// code (timeout, keep_crlf) and exits 33: the document's code still applies to it
+        CustomDefaultsOtherInlineKeys,
+        /// a code no process can end with: 336 (= 80 + 256); the test case exits 80: no skip
+        Beyond255LowByte80,
+        /// ... and 256; the test case exits 0: no skip
+        Beyond255LowByte0,
     }
     for mode in ["md", "cram", "md-compat"] {
         let cram = mode != "md";
@@ -514,12 +521,15 @@ pub fn lane_skip(seed: u64) -> Vec<Scenario> {
             How::InlineDefaultValueOverCustomDefaults,
             How::InlineDefaultValueNoSkip,
             How::EightyButCustomDefaults,
+            How::CustomDefaultsOtherInlineKeys,
+            How::Beyond255LowByte80,
+            How::Beyond255LowByte0,
         ] {
             if mode == "cram" && how != How::Default80 {
                 continue;
             }
             // single-script mode has no per-test settings: front-matter defaults only
-            if compat && !matches!(how, How::Default80 | How::CustomDefaults | How::EightyButCustomDefaults) {
+            if compat && !matches!(how, How::Default80 | How::CustomDefaults | How::EightyButCustomDefaults | How::Beyond255LowByte80 | How::Beyond255LowByte0) {
                 continue;
             }
             for pos in 0..3usize {
@@ -527,7 +537,8 @@ pub fn lane_skip(seed: u64) -> Vec<Scenario> {
                     for other in ["pass", "fail", "skip"] {
                         let mut sim = base_sim(g.rng.next_u64());
                         let code = match how {
-                            How::Default80 | How::EightyButCustom | How::InlineDefaultValueOverCustomDefaults | How::EightyButCustomDefaults => 80,
+                            How::Default80 | How::EightyButCustom | How::InlineDefaultValueOverCustomDefaults | How::EightyButCustomDefaults | How::Beyond255LowByte80 => 80,
+                            How::Beyond255LowByte0 => 0,
                             How::LayeredDefaultsCodeNoSkip => 99,
                             How::CustomZero => 0,
                             _ => 33,
@@ -557,6 +568,10 @@ pub fn lane_skip(seed: u64) -> Vec<Scenario> {
                                 if how == How::CustomZero {
                                     p.cfg.skip_code = Some(0);
                                 }
+                                if how == How::CustomDefaultsOtherInlineKeys {
+                                    p.cfg.timeout_ns = Some(30 * SEC);
+                                    p.cfg.keep_crlf = Some(true);
+                                }
                                 if matches!(how, How::InlineDefaultValueOverCustomDefaults | How::InlineDefaultValueNoSkip) {
                                     p.cfg.skip_code = Some(80);
                                 }
@@ -581,8 +596,14 @@ pub fn lane_skip(seed: u64) -> Vec<Scenario> {
                         // (how the fences are written must not matter)
                         a.fence_wide_gap = pos == 1;
                         a.long_closing_fence = pos == 2;
-                        if how == How::CustomDefaults || how == How::EightyButCustomDefaults {
+                        if how == How::CustomDefaults || how == How::EightyButCustomDefaults || how == How::CustomDefaultsOtherInlineKeys {
                             a.defaults.skip_code = Some(33);
+                        }
+                        if how == How::Beyond255LowByte80 {
+                            a.defaults.skip_code = Some(336);
+                        }
+                        if how == How::Beyond255LowByte0 {
+                            a.defaults.skip_code = Some(256);
                         }
                         if matches!(how, How::LayeredInlineWins | How::LayeredDefaultsCodeNoSkip) {
                             a.defaults.skip_code = Some(99);
@@ -886,6 +907,22 @@ pub fn lane_env(seed: u64) -> Vec<Scenario> {
                             action: "mkdir".into(),
                             path: format!("{}/{}/inner", base, name),
                         });
+                    }
+                    // what test cases leave behind in their $TMPDIR goes away with it: a file, a
+                    // small tree, and (every fourth) a tree whose absolute path exceeds PATH_MAX
+                    if !script {
+                        let deep = g.chance(25);
+                        for d in docs.iter().filter(|d| d.main) {
+                            if let Some(t) = d.tests.first() {
+                                if let Some(ops) = sim.programs.get_mut(&t.nonce) {
+                                    ops.insert(0, Op::Touch { rel: "left-behind.txt".into() });
+                                    ops.insert(1, Op::Touch { rel: "left/behind/deeper/file.txt".into() });
+                                    if deep {
+                                        ops.insert(2, Op::DeepTree { levels: 30, name_len: 200 });
+                                    }
+                                }
+                            }
+                        }
                     }
                     let mut sc = Scenario {
                         lane: format!("env/{}/{}/{}/{}", oname, dirmode, fmt, layout),
@@ -2269,4 +2306,30 @@ pub fn lane_closed_stderr(seed: u64) -> Vec<Scenario> {
             s
         })
         .collect()
+}
+
+/// C12 next to another scrut process: both run Markdown documents in the SAME --work-directory
+/// (and temporary root); the state a test case finds is the one its own predecessor left - never
+/// the other process' (lane `duo` of C18, restricted to pairs that share the directory)
+pub fn lane_duo_state(seed: u64, n: usize) -> Vec<Scenario> {
+    let pick = |s: &Scenario| s.cli.work_directory && !s.cli.cram_compat && s.docs.iter().all(|d| d.format == Format::Md && d.raw.is_none()) && s.cli.shell.is_none() && s.cli.missing_paths.is_empty();
+    let pool_a: Vec<Scenario> = lane_env(seed ^ 0xd5a).into_iter().filter(pick).collect();
+    let pool_b: Vec<Scenario> = lane_env(seed ^ 0xd5b).into_iter().filter(pick).collect();
+    let mut g = G::new(seed ^ 0xd50);
+    let mut out = vec![];
+    if pool_a.is_empty() || pool_b.is_empty() {
+        return out;
+    }
+    for k in 0..n {
+        let mut a = pool_a[(k * 5 + 1) % pool_a.len()].clone();
+        let mut b = pool_b[g.below(pool_b.len() as u64) as usize].clone();
+        a.sim.peer.clear();
+        b.sim.peer.clear();
+        a.lane = format!("duo-state/{}+{}", a.lane, b.lane);
+        a.check = vec!["C12".into(), "C18".into()];
+        b.check = vec!["C12".into(), "C18".into()];
+        a.partner = Some(Box::new(b));
+        out.push(a);
+    }
+    out
 }
